@@ -344,6 +344,14 @@ Definition ones (sh : list Z) : list nat := map (fun _ => 1%nat) sh.
 
 Definition oz_eqb := option_eqb Z.eqb.
 
+(* numpy's .item(): a Python int or float (shown as int64 / float64); the masked
+   constant (float64) for a missing element *)
+Definition item_obs (d : dt) (x : option Z) : obs :=
+  match x with
+  | None => OArray [] F8 [None]
+  | Some _ => OArray [] (match dkind_of d with KF => F8 | _ => I8 end) [x]
+  end.
+
 Definition step (C : cfg) (dk : disk) (h : list cell) (o : op) : list cell * obs * trace :=
   match o with
   | OCopy i =>
@@ -407,7 +415,7 @@ Definition step (C : cfg) (dk : disk) (h : list cell) (o : op) : list cell * obs
       | (Ok c', t) =>
         match c' with
         | InMem _ d a => match flatten a with
-                         | [x] => (h, OArray [] d [x], t)
+                         | [x] => (h, item_obs d x, t)
                          | _ => (h, OErr ValueErr, t)
                          end
         | OnDisk _ _ _ _ => (h, OErr OtherErr, t)
